@@ -1,7 +1,19 @@
 """C05 - exactly one removal notification per departed entry, with the true reason."""
-import storecheck
+import os
+import storecheck, storelib
+
+
+def extra(work, v, thorough):
+    # hybrid caches (one history in four with the entry pool): a Delete of a resident entry is notified (HybridTrace)
+    out = storelib.run_driver(work, "TestVerif_Hybrid", "hybrid", env={"VERIF_N": 300 if thorough else 40}, timeout=2400)
+    tf = os.path.join(out, "hybrid.ndjson")
+    res = storelib.validate(work, tf, "hybrid", module="HybridTrace", cfg="HybridTrace.cfg", timeout=3000)
+    storelib.report(v, work, "C05", tf, res)
+    return {"hybrid_histories": res["traces"], "_traces": res["traces"]}
+
 
 PLAN = {
+    "extra": extra,
     "api": True,
     "lin": True,
     "mc": [("StoreMC_acct.cfg", False), ("StoreMC_exp_small.cfg", False), ("StoreMC_exp.cfg", True)],
